@@ -71,7 +71,7 @@ PROPS = {
         "native": [
             {"name": "type_universe_distinct_and_stable", "bin": "replay_c14", "crate": "replay", "twice": True,
              "pre": "python3 lib/gen_c14_universe.py out/aux/c14_universe.rs", "tiers": ("quick", "thorough"),
-             "bound": "6264 types of a generated constructor-closed universe (EVERY leaf type that has an Identifiable impl incl. the smallvec/bitvec features, all unary constructors over the main leaves, nestings to depth 3, binary constructors in both argument orders, permuted tuples, array lengths, derived user types): ids evaluated on the real crate, pairwise distinct, identical in two separate processes"},
+             "bound": "6345 types of a generated constructor-closed universe (EVERY leaf type that has an Identifiable impl incl. the smallvec/bitvec features, all unary constructors over the main leaves, every `?Sized`-accepting constructor over every unsized leaf, Cow over borrowed AND owned forms, nestings to depth 3, binary constructors in both argument orders, permuted tuples, array lengths, derived user types): ids evaluated on the real crate, pairwise distinct, identical in two separate processes"},
             {"name": "store_addressing_through_both_write_paths", "bin": "replay_c11", "crate": "replay_db", "release": False, "tiers": ("quick", "thorough"), "thorough_seeds": 2,
              "bound": "the C11 real-backend run (direct and serialization-buffer write paths, first touch of a column after a reopen, several operations on one slot in one buffer, empty encodings): every operation must land in the column of its own column type"},
             {"name": "store_slots_by_type_id", "bin": "replay_c14_store", "crate": "replay_db", "release": False, "tiers": ("quick", "thorough"), "thorough_seeds": 1,
@@ -165,7 +165,7 @@ PROPS = {
         ],
         "native": [
             {"name": "real_backends_scan_and_point_reads", "bin": "replay_c11", "crate": "replay_db", "release": False, "tiers": ("quick", "thorough"), "thorough_seeds": 6, "timeout": 5400,
-             "bound": "the REAL RocksDB and Fjall backends (temporary directories): seeded random batches over prefix-related / empty / 0xFF-heavy / >32-bit keys, wide columns with both discriminant encodings and key-of-set columns, point reads and member scans compared with a reference map, direct and serialization-buffer write paths, first touch after a reopen, several operations on one slot in one buffer, empty value encodings, 128-bit boundary keys, before and after reopen; 1 seed in the quick tier, 6 in the thorough tier (builds RocksDB: about 3 minutes cold, 1 s warm)"},
+             "bound": "the REAL RocksDB and Fjall backends (temporary directories): seeded random batches over prefix-related / empty / 0xFF-heavy / >32-bit keys, wide columns with both discriminant encodings and key-of-set columns, point reads and member scans compared with a reference map, direct and serialization-buffer write paths, first touch after a reopen, several operations on one slot in one buffer, empty value encodings, batches that hold ONLY operations with empty key and value encodings, string values of 0..70001 bytes and string keys / members of 0..5000 bytes (Fjall limits backend keys to 65535 bytes), 128-bit boundary keys, before and after reopen; 1 seed in the quick tier, 6 in the thorough tier (builds RocksDB: about 3 minutes cold, 1 s warm)"},
         ],
         "witness": witness.c11,
         "assumptions": [
